@@ -2,7 +2,9 @@ package lww
 
 import (
 	"fmt"
+	"os"
 	"sort"
+	"strings"
 )
 
 // Workload families: instead of a handful of hand-written workloads, the E3 checks enumerate EVERY
@@ -92,6 +94,9 @@ func BuildWord(word string) []Batch {
 // length 2 over {b d x u z}; thorough = every word of length 2 over the whole alphabet plus z and of
 // length 3 over {u b d x z}.
 func GatedWords(tier string) []string {
+	if w := os.Getenv("VERIF_WORDS"); w != "" { // debugging aid
+		return strings.Split(w, ",")
+	}
 	if tier == "thorough" {
 		return append(Words(FamilyAlphabet+"z", 2), Words("ubdxz", 3)...)
 	}
